@@ -1,5 +1,5 @@
-From Verif Require Import Lib.Sx Model.RtmpPacket.
+From Verif Require Import Lib.Sx Proofs.RtmpEndToEnd.
 Require Extraction.
 Require Import ExtrOcamlBasic.
-Definition run := run_c03.
+Definition run := run_c03x.
 Extraction "model.ml" run.
